@@ -159,6 +159,15 @@ func genC17(t *rapid.T) C17Case {
 		case 0, 1, 2:
 			return C17Op{Op: "write", Sizes: []int{size.Draw(t, "n")}}
 		case 3, 4, 5:
+			if rapid.IntRange(0, 19).Draw(t, "longvec") == 7 {
+				// a long vector (a sender batch of a large queue): the number of segments, not their size
+				n := rapid.SampledFrom([]int{33, 64, 65, 100, 129, 300}).Draw(t, "nsegs")
+				sz := make([]int, n)
+				for i := range sz {
+					sz[i] = 1 + i%5
+				}
+				return C17Op{Op: "writev", Sizes: sz}
+			}
 			return C17Op{Op: "writev", Sizes: rapid.SliceOfN(size, 0, 4).Draw(t, "segs"), Alias: rapid.IntRange(0, 3).Draw(t, "alias") == 0}
 		case 6, 7:
 			return C17Op{Op: "flush"}
@@ -493,6 +502,9 @@ func runC17(c C17Case) (out core.Outcome) {
 					keep = append(keep, append([]byte{}, b...))
 					total += n
 				}
+			}
+			if len(op.Sizes) > 64 {
+				cls.Add("writev-more-than-64-segments")
 			}
 			own := append([][]byte{}, segs...) // caller's references to the segment contents
 			if len(conn.got) < len(written) {
